@@ -383,7 +383,9 @@ func runCodecPass(c *Ctx, res *codecResult, spec ws, T types.Type, pos string, p
 	// inverse: decode the encoder's abstract output
 	recv := &absint.Cell{V: in.Zero(T)}
 	var dec []absint.Value
-	err = in.Try(func() { dec = in.CallMethod(recv, T, "UnmarshalBinary", unmarshalArgs(in, T, out, spec.Dir == "up")...) })
+	err = in.Try(func() {
+		dec = in.CallMethod(recv, T, "UnmarshalBinary", unmarshalArgs(in, T, out, spec.Dir == "up")...)
+	})
 	for fn := range in.Called {
 		res.Funcs = append(res.Funcs, fn)
 	}
@@ -450,7 +452,9 @@ func runDecoderPass(c *Ctx, res *codecResult, spec ws, T types.Type, pos string)
 	data := in.SymBytes("data", spec.Size)
 	recv := &absint.Cell{V: in.Zero(T)}
 	var dec []absint.Value
-	err := in.Try(func() { dec = in.CallMethod(recv, T, "UnmarshalBinary", unmarshalArgs(in, T, data, spec.Dir == "up")...) })
+	err := in.Try(func() {
+		dec = in.CallMethod(recv, T, "UnmarshalBinary", unmarshalArgs(in, T, data, spec.Dir == "up")...)
+	})
 	for fn := range in.Called {
 		res.Funcs = append(res.Funcs, fn)
 	}
@@ -504,7 +508,9 @@ func runDecoderPass(c *Ctx, res *codecResult, spec ws, T types.Type, pos string)
 		data2 := in2.SymBytes("data", n)
 		recv2 := &absint.Cell{V: in2.Zero(T)}
 		var dec2 []absint.Value
-		err := in2.Try(func() { dec2 = in2.CallMethod(recv2, T, "UnmarshalBinary", unmarshalArgs(in2, T, data2, spec.Dir == "up")...) })
+		err := in2.Try(func() {
+			dec2 = in2.CallMethod(recv2, T, "UnmarshalBinary", unmarshalArgs(in2, T, data2, spec.Dir == "up")...)
+		})
 		clause := "dec.short"
 		if delta > 0 {
 			clause = "dec.long"
